@@ -5,6 +5,9 @@ scratch worktree /tmp/mt/repo: demo passes without the change, fails with it, th
 tests still pass with it; runs ./check <Cnn> against it through tools/mt.sh; stores the result
 under /verif/seeded/<Cnn>-<slug>/."""
 import json, os, re, shutil, subprocess, sys
+if not os.environ.get("MT_LOCKED"):
+    os.environ["MT_LOCKED"] = "1"
+    os.execvp("flock", ["flock", "/tmp/mt.lock", sys.executable] + sys.argv)
 sid, crate, pid, slug = sys.argv[1:5]
 extra = sys.argv[5:]
 out = "/tmp/seed/%s.out" % sid
